@@ -134,6 +134,20 @@ class Program:
             raise AnchorMissing("ADT `%s` not found" % path)
         return a
 
+    def capture_origin(self, closure_body, cap):
+        """Provenance, in the enclosing body, of what a closure captured.  `cap` is a ("capture", name, field index) origin
+        (or a field index).  Lets rules speak about *what* was captured instead of the captured variable's name."""
+        idx = cap[2] if isinstance(cap, tuple) and len(cap) > 2 else cap
+        parent = self.bodies.get(closure_body.parent_key)
+        if parent is None or not isinstance(idx, int):
+            return ("unknown",)
+        for bb, j, st in parent.statements(normal_only=True):
+            if st["k"] == "assign" and st["rv"]["k"] == "agg" and st["rv"].get("ak") in ("closure", "coroutine") and st["rv"].get("def") == closure_body.key:
+                ops = st["rv"].get("ops") or []
+                if idx < len(ops):
+                    return parent.origin(ops[idx])
+        return ("unknown",)
+
     def closures_of(self, body, recursive=True):
         out = []
         for b in self.bodies.values():
@@ -536,7 +550,7 @@ class Body:
                 nm = pr.get("n", str(pr["f"]))
                 # closure environment: _1.N / (*_1).N
                 if base[0] == "param" and base[1] == 1 and self.kind == "Closure":
-                    base = ("capture", nm)
+                    base = ("capture", nm, pr["f"])
                 elif base[0] == "phi" and all(x[0] == "agg" and x[1].get("ak") in ("adt", "tuple") for x in base[1]):
                     alts = []
                     for x in base[1]:
